@@ -26,23 +26,36 @@ NSLOTS = 4
 
 VFILES = ["Log/LogModel.v", "Log/LogSpec.v", "Log/LogProofs.v", "Extract/Extract_Log.v", "Tie/Tie_C05.v"]
 
+# one-expression statement shapes instantiated per logger: all 40 for two loggers, a subset for the others
+FULL_SHAPE_LOGGERS = (0, 5)
+REDUCED_SHAPES = [s for s in SHAPES if len(s) <= 2] + ["SNC", "CCC", "CSC", "NCS"]
+
+
+def shapes_for(lg):
+    return SHAPES if lg in FULL_SHAPE_LOGGERS else REDUCED_SHAPES
+
+
 GEN_SRC = "harness/gen/log_driver.cpp"
 
 
 def ensure_generated():
-    """(re)write the generated C++ program; it is compiled by lib.framework.build_cpp against /repo's current tree"""
+    """(re)write the generated C++ program (one translation unit per logger + the case loop); it is compiled by
+    lib.framework.build_cpp against /repo's current tree, once per compile-time minimum"""
     from gen import gen_log_harness
-    framework.write_if_changed(os.path.join(framework.ROOT, GEN_SRC), gen_log_harness.source())
+    srcs = gen_log_harness.sources()
+    for p, t in srcs.items():
+        framework.write_if_changed(os.path.join(framework.ROOT, p), t)
+    return sorted(p for p in srcs if p != GEN_SRC)
 
 
 def cpps():
-    ensure_generated()
-    return {"m%d" % i: dict(name="log_m%d" % i, driver_src=GEN_SRC,
+    extra = ensure_generated()
+    return {"m%d" % i: dict(name="log_m%d" % i, driver_src=GEN_SRC, extra_srcs=extra,
                             defines=["NITRO_LOG_MIN_SEVERITY=%s" % SEVS[i], "VH_MIN=%d" % i])
             for i in range(6)}
 
 
-OCAML = dict(name="log", extracted="log_model.ml", glue=("glue_base.ml", "glue_z.ml"))
+OCAML = dict(name="log", extracted="log_model.ml", glue=("glue_base.ml", "glue_z.ml", "log_lib.ml"))
 
 # ------------------------------------------------------------------ wire format
 
@@ -148,7 +161,7 @@ def threshold_settings(lg):
     r1 = range(6) if u1 else [None]
     for a in r0:
         for b in r1:
-            yield [op_set(0, a)] * (a is not None) + [op_set(1, b)] * (b is not None)
+            yield ([op_set(0, a)] if a is not None else []) + ([op_set(1, b)] if b is not None else [])
 
 
 # fixed item values per kind and position (the text/number/id differ by position so that order is visible)
@@ -176,7 +189,7 @@ def single_statement_space(mins=range(6)):
                 for sv in range(6):
                     for form in "on":
                         for tag in TAGS:
-                            for sh in SHAPES:
+                            for sh in shapes_for(lg):
                                 yield case(mn, pre + stmt_ops(form, lg, sv, tag, shape_items(sh)))
 
 
@@ -191,7 +204,8 @@ def quick_deterministic():
                 for sv in range(6):
                     for form in "on":
                         for r in range(2):
-                            sh = SHAPES[(n * 7 + r * 13) % len(SHAPES)]
+                            shs = shapes_for(lg)
+                            sh = shs[(n * 7 + r * 13) % len(shs)]
                             tag = TAGS[(n + r) % 2]
                             n += 1
                             yield case(mn, pre + stmt_ops(form, lg, sv, tag, shape_items(sh))), "stmt-grid"
@@ -220,6 +234,11 @@ def rand_item(rng, nid):
     return ("C", rng.randint(0, nid), "".join(rng.choice("xyz ") for _ in range(rng.choice([0, 1, 3]))))
 
 
+def fit(lg, its):
+    """a one-expression statement must use a shape instantiated for its logger"""
+    return its if "".join(i[0] for i in its) in shapes_for(lg) else its[:2]
+
+
 def rand_tag(rng):
     r = rng.random()
     if r < 0.4:
@@ -244,7 +263,7 @@ def rand_program(rng, mn=None):
         if r < 0.2:
             ops.append(op_set(rng.randrange(2), rng.randrange(6)))
         elif r < 0.45:
-            its = [rand_item(rng, 9) for _ in range(rng.randint(0, 3))]
+            its = fit(lg, [rand_item(rng, 9) for _ in range(rng.randint(0, 3))])
             ops.append(op_one(lg, sv, rand_tag(rng), its))
         elif r < 0.6:
             v = rng.randrange(NSLOTS)
@@ -270,10 +289,11 @@ def rand_statement_sequence(rng):
         if rng.random() < 0.3:
             ops.append(op_set(rng.randrange(2), rng.randrange(6)))
         lg = rng.randrange(len(LOGGERS))
-        sh = rng.choice(SHAPES)
-        its = [rand_item(rng, 9) if rng.random() < 0.5 else i for i in shape_items(sh, rng.randrange(3))]
-        its = [i if i[0] == k else j for i, j, k in zip(its, shape_items(sh), sh)]   # keep the static shape
-        ops += stmt_ops(rng.choice("on"), lg, rng.randrange(6), rand_tag(rng), its)
+        form = rng.choice("on")
+        its = [rand_item(rng, 9) for _ in range(rng.randint(0, 3))]
+        if form == "o":
+            its = fit(lg, its)
+        ops += stmt_ops(form, lg, rng.randrange(6), rand_tag(rng), its)
     return case(mn, ops)
 
 
